@@ -271,7 +271,7 @@ theorem C01_main (argv : List Bytes) (env : Env) (s0 : DState) (ws : List Word)
     (hpatch : s0.fs.lookup pname = some (.file (diffText name name oldt newt hs) pm))
     (hh : DiffHunks hs) (hvalid : Valid (splitLines bytes) 0 0 hs) :
     (patchMain argv env s0).1 = 0 ∧
-    (patchMain argv env s0).2.fs.lookup name = some (.file (renderLines .native (splice (splitLines bytes) 0 hs)) m) ∧
+    (patchMain argv env s0).2.fs.lookup name = some (.file (Render.renderText .native (splice (splitLines bytes) 0 hs)) m) ∧
     ∀ q, q ≠ name → (patchMain argv env s0).2.fs.lookup q = s0.fs.lookup q := by
   rw [patchMain_ok s0 (commandLine_plain ws argv env name pname hws hargv)]
   have h := C01_run (applyDefaults (plainOptions name pname) env) s0 name pname bytes oldt newt m pm hs
@@ -343,7 +343,7 @@ theorem C01_main_spellings (argv : List Bytes) (env : Env) (s0 : DState)
     (hpatch : s0.fs.lookup pname = some (.file (diffText name name oldt newt hs) pm))
     (hh : DiffHunks hs) (hvalid : Valid (splitLines bytes) 0 0 hs) :
     (patchMain argv env s0).1 = 0 ∧
-    (patchMain argv env s0).2.fs.lookup name = some (.file (renderLines .native (splice (splitLines bytes) 0 hs)) m) ∧
+    (patchMain argv env s0).2.fs.lookup name = some (.file (Render.renderText .native (splice (splitLines bytes) 0 hs)) m) ∧
     ∀ q, q ≠ name → (patchMain argv env s0).2.fs.lookup q = s0.fs.lookup q := by
   obtain ⟨ws, hws, hsp⟩ := plainArgv_spelled hargv hpn
   exact C01_main argv env s0 ws name pname bytes oldt newt m pm hs hws hsp hs0 hn hpn hpd htarget hw hot hnt hpatch hh hvalid
@@ -359,7 +359,7 @@ theorem C01_main_literal (env : Env) (s0 : DState) (name pname bytes oldt newt :
     (hh : DiffHunks hs) (hvalid : Valid (splitLines bytes) 0 0 hs) :
     (patchMain [[45, 105], pname, name] env s0).1 = 0 ∧
     (patchMain [[45, 105], pname, name] env s0).2.fs.lookup name =
-      some (.file (renderLines .native (splice (splitLines bytes) 0 hs)) m) ∧
+      some (.file (Render.renderText .native (splice (splitLines bytes) 0 hs)) m) ∧
     ∀ q, q ≠ name → (patchMain [[45, 105], pname, name] env s0).2.fs.lookup q = s0.fs.lookup q :=
   C01_main_spellings _ env s0 name pname bytes oldt newt m pm hs (.after _ .shortSep hname) hs0 hn hpn hpd htarget hw hot hnt hpatch
     hh hvalid
@@ -413,23 +413,24 @@ theorem C05_main (argv : List Bytes) (env : Env) (s0 : DState) (ws : List Word)
   exact h
 
 /-- **C18, from the command line**: `patch -b -i pname name`: exit status 0, the target holds the intended result, `name.orig`
-    holds the old bytes, both with the old mode, nothing else differs -/
+    holds the old bytes, both with the old mode, nothing else differs (`hbnd`, new with the model change "a file is not renamed onto a
+    directory": `name.orig` is not a directory — else the backup fails and the exit status is 2, `C18Run.BackupNameTaken`) -/
 theorem C18_main (argv : List Bytes) (env : Env) (s0 : DState) (ws : List Word)
     (name pname bytes oldt newt : Bytes) (m pm : Nat) (hs : List Hunk)
     (hws : WordsWith (.flag optBackup) ws name pname) (hargv : Spelled optionTable ws argv)
     (hs0 : CleanStart s0) (hbu : s0.backedUp = [])
-    (hn : flatName name) (hpn : pname ≠ []) (hpd : pname ≠ [45])
+    (hn : flatName name) (hbnd : ∀ m', s0.fs.lookup (name ++ str ".orig") ≠ some (.dir m')) (hpn : pname ≠ []) (hpd : pname ≠ [45])
     (htarget : s0.fs.lookup name = some (.file bytes m)) (hw : m &&& writeMask ≠ 0)
     (hot : stampOk oldt) (hnt : stampOk newt)
     (hpatch : s0.fs.lookup pname = some (.file (diffText name name oldt newt hs) pm))
     (hh : DiffHunks hs) (hvalid : Valid (splitLines bytes) 0 0 hs) :
     (patchMain argv env s0).1 = 0 ∧
-    (patchMain argv env s0).2.fs.lookup name = some (.file (renderLines .native (splice (splitLines bytes) 0 hs)) m) ∧
+    (patchMain argv env s0).2.fs.lookup name = some (.file (Render.renderText .native (splice (splitLines bytes) 0 hs)) m) ∧
     (patchMain argv env s0).2.fs.lookup (name ++ str ".orig") = some (.file bytes m) ∧
     (∀ q, q ≠ name → q ≠ name ++ str ".orig" → (patchMain argv env s0).2.fs.lookup q = s0.fs.lookup q) := by
   rw [patchMain_ok s0 (commandLine_backup ws argv env name pname hws hargv)]
   have h := C18Run.C18_run_orig _ s0 name pname bytes oldt newt m pm hs (runOptsB_ad env (runOptsB_backup name pname))
-    (ad_saveBackup env _) (ad_backupPrefix env _) (ad_backupSuffix env _) (ad_dryRun env _) hs0 hbu hn hpn hpd htarget hw hot hnt
+    (ad_saveBackup env _) (ad_backupPrefix env _) (ad_backupSuffix env _) (ad_dryRun env _) hs0 hbu hn hbnd hpn hpd htarget hw hot hnt
     hpatch hh hvalid
   rw [ad_newlineOutput] at h
   exact h
@@ -617,7 +618,7 @@ theorem applies (env : Env) :
   have h := C01_main_literal env s0 name pname bytes oldt newt 0o644 0o644 [hk] (by decide) ⟨rfl, rfl, rfl, rfl, rfl, rfl⟩
     (by decide) (by decide) (by decide) (by decide) (by decide) (by decide) (by decide) rfl diffHunks
     (validB_sound _ _ _ _ (by decide))
-  have hm : renderLines .native (splice (splitLines bytes) 0 [hk]) = [97, 10, 66, 10, 99, 10] := by decide
+  have hm : Render.renderText .native (splice (splitLines bytes) 0 [hk]) = [97, 10, 66, 10, 99, 10] := by decide
   rw [hm] at h
   exact h
 
@@ -636,7 +637,7 @@ theorem applies_spellings (env : Env) (argv' : List Bytes)
   have h := C01_main_spellings argv' env s0 name pname bytes oldt newt 0o644 0o644 [hk] hp ⟨rfl, rfl, rfl, rfl, rfl, rfl⟩
     (by decide) (by decide) (by decide) (by decide) (by decide) (by decide) (by decide) rfl diffHunks
     (validB_sound _ _ _ _ (by decide))
-  have hm : renderLines .native (splice (splitLines bytes) 0 [hk]) = [97, 10, 66, 10, 99, 10] := by decide
+  have hm : Render.renderText .native (splice (splitLines bytes) 0 [hk]) = [97, 10, 66, 10, 99, 10] := by decide
   rw [hm] at h
   exact ⟨h.1, h.2.1⟩
 
@@ -667,9 +668,10 @@ theorem applies_b (env : Env) :
     (patchMain [[45, 98], [45, 105], pname, name] env s0).2.fs.lookup C18Run.Instance.orig = some (.file bytes 0o644) := by
   have h := C18_main _ env s0 _ name pname bytes oldt newt 0o644 0o644 [hk] (List.Perm.refl _)
     (spelled_flag_literal backup_mem rfl _ (.inr ⟨98, by decide, rfl⟩) (by decide)) ⟨rfl, rfl, rfl, rfl, rfl, rfl⟩ rfl
-    (by decide) (by decide) (by decide) rfl (by decide) (by decide) (by decide) rfl diffHunks (validB_sound _ _ _ _ (by decide))
+    (by decide) (by rw [RunB.str_orig]; exact RunB.notDir_of_none (by decide))
+    (by decide) (by decide) rfl (by decide) (by decide) (by decide) rfl diffHunks (validB_sound _ _ _ _ (by decide))
   have e : name ++ str ".orig" = C18Run.Instance.orig := by rw [RunB.str_orig]; rfl
-  have hm : renderLines .native (splice (splitLines bytes) 0 [hk]) = [97, 10, 66, 10, 99, 10] := by decide
+  have hm : Render.renderText .native (splice (splitLines bytes) 0 [hk]) = [97, 10, 66, 10, 99, 10] := by decide
   rw [e, hm] at h
   exact ⟨h.1, h.2.1, h.2.2.1⟩
 
